@@ -114,7 +114,7 @@ Lemma atoms_of_app : forall g1 g2, atoms_of (g1 ++ g2) = atoms_of g1 ++ atoms_of
 Proof. intros. unfold atoms_of. apply flat_map_app. Qed.
 
 Lemma dv_prefix : forall D D1 D2 a a' j, D = D1 ++ D2 ->
-    (forall id, In id (atoms_of D1) -> a id = a' id) -> j <= length D1 ->
+    (forall id, In id (atoms_of D1) -> a id = a' id) -> (j <= length D1)%nat ->
     vget (dag_val a D) j = vget (dag_val a' D) j.
 Proof.
   intros D D1 D2 a a' j E H L. subst D. rewrite !dag_val_app by auto.
@@ -157,11 +157,11 @@ Proof.
   induction D2 as [|nd D2 IH]; intros D1 k m0 a0 ED EK INV.
   - simpl. unfold b2q. rewrite Qcmult_1_l. apply Gext. intros j. rewrite INV.
     destruct (j <=? k) eqn:L; auto. apply Nat.leb_gt in L.
-    symmetry. apply vget_out. rewrite dag_val_length. subst D. rewrite app_nil_r. lia.
+    symmetry. apply vget_out. rewrite dag_val_length. rewrite ED, app_nil_r. lia.
   - assert (ED' : D = (D1 ++ [nd]) ++ D2) by (rewrite <- app_assoc; exact ED).
     assert (EK' : S k = length (D1 ++ [nd])) by (rewrite app_length; simpl; lia).
-    assert (NA : node_at D (S k) = Some nd) by (subst D k; apply node_at_mid).
-    assert (NIr : forall j, j <= S k -> ~ In j (seq (S (S k)) (length D2))).
+    assert (NA : node_at D (S k) = Some nd) by (rewrite ED, EK; apply node_at_mid).
+    assert (NIr : forall j, (j <= S k)%nat -> ~ In j (seq (S (S k)) (length D2))).
     { intros j Lj Hj. apply in_seq in Hj. lia. }
     change (length (nd :: D2)) with (S (length D2)).
     cbn [seq combine forallb ssum].
@@ -208,7 +208,7 @@ Proof.
         { rewrite ncond_nonatom by (intros; discriminate).
           rewrite (Hm (S k)) by (apply NIr; lia). rewrite (upd_same Nat.eqb Nat_eqb_spec).
           f_equal. unfold v. apply eval_node_ext. intros c Hc. apply lit_val_ext.
-          assert (Lc : key_of c < S k) by (eapply T; eauto).
+          assert (Lc : (key_of c < S k)%nat) by (eapply T; eauto).
           rewrite (Hm (key_of c)) by (apply NIr; lia).
           apply (upd_other Nat.eqb Nat_eqb_spec). lia. }
         rewrite E1. ring. }
@@ -223,7 +223,7 @@ Proof.
         unfold dvD. rewrite (dag_val_supported D a0 T (S k)), NA.
         unfold v. rewrite (eval_node_nonatom afalse a0) by (intros; discriminate).
         apply eval_node_ext. intros c Hc. apply lit_val_ext.
-        assert (Lc : key_of c < S k) by (eapply T; eauto).
+        assert (Lc : (key_of c < S k)%nat) by (eapply T; eauto).
         rewrite INV. assert (L2 : (key_of c <=? k) = true) by (apply Nat.leb_le; lia). now rewrite L2.
       * apply Nat.eqb_neq in Ej. rewrite INV.
         destruct (j <=? k) eqn:L1.
@@ -247,7 +247,7 @@ Proof.
         { rewrite ncond_nonatom by (intros; discriminate).
           rewrite (Hm (S k)) by (apply NIr; lia). rewrite (upd_same Nat.eqb Nat_eqb_spec).
           f_equal. unfold v. apply eval_node_ext. intros c Hc. apply lit_val_ext.
-          assert (Lc : key_of c < S k) by (eapply T; eauto).
+          assert (Lc : (key_of c < S k)%nat) by (eapply T; eauto).
           rewrite (Hm (key_of c)) by (apply NIr; lia).
           apply (upd_other Nat.eqb Nat_eqb_spec). lia. }
         rewrite E1. ring. }
@@ -262,7 +262,7 @@ Proof.
         unfold dvD. rewrite (dag_val_supported D a0 T (S k)), NA.
         unfold v. rewrite (eval_node_nonatom afalse a0) by (intros; discriminate).
         apply eval_node_ext. intros c Hc. apply lit_val_ext.
-        assert (Lc : key_of c < S k) by (eapply T; eauto).
+        assert (Lc : (key_of c < S k)%nat) by (eapply T; eauto).
         rewrite INV. assert (L2 : (key_of c <=? k) = true) by (apply Nat.leb_le; lia). now rewrite L2.
       * apply Nat.eqb_neq in Ej. rewrite INV.
         destruct (j <=? k) eqn:L1.
@@ -278,7 +278,7 @@ Theorem wmc_completion : forall a0,
     = ssum N.eqb wi (atoms_of D) (fun a => G (dvD a)) a0.
 Proof.
   intros a0.
-  rewrite (ssum_ext Nat.eqb w (seq 1 (length D)) _
+  rewrite (ssum_ext Nat.eqb Nat_eqb_spec w (seq 1 (length D)) _
              (fun m => b2q (forallb (ncond m) (combine (seq 1 (length D)) D)) * G m)).
   2:{ intros m. now rewrite completion_forallb. }
   apply (elim_gen D [] 0); auto.
